@@ -17,12 +17,16 @@ deriving Repr
 
 def cacheLine : Nat := Gen.cacheLineSize
 
-/-- the inner reader: (bytes read, rest of source, rest of schedule) for a destination of `dst` bytes -/
+/-- how many bytes the k-th inner `read(dst)` is willing to deliver: a plain size, or (values ≥ 10^9) a size
+    relative to the space offered: 10^9+1 ↦ dst-1, 10^9+d ↦ dst/d -/
 def wantOf (sched : List Nat) (dst : Nat) : Nat :=
   match sched with
   | [] => dst
-  | s :: _ => max 1 s
+  | s :: _ =>
+    if s ≥ 1000000000 then (if s == 1000000001 then max 1 (dst - 1) else max 1 (dst / (s - 1000000000)))
+    else max 1 s
 
+/-- the inner reader: (bytes read, rest of source, rest of schedule) for a destination of `dst` bytes -/
 def innerRead (src : List Nat) (sched : List Nat) (dst : Nat) : List Nat × List Nat × List Nat :=
   (src.take (min (min (wantOf sched dst) dst) src.length), src.drop (min (min (wantOf sched dst) dst) src.length), sched.drop 1)
 
